@@ -24,17 +24,41 @@ def nontrivial_rr(header, lines):
     return n >= 2 and len(ids) > n and ids != sorted(ids)
 
 
+def _redispatched_after_failure(lines):
+    # some request was dispatched to a backend that answered it with an error (mock told so by `set-result`)
+    # and the same request value was dispatched again later
+    failed = set()
+    last = None
+    for l in lines:
+        t = l.split()
+        if t[:2] == ["obs", "picked"] and len(t) == 5:
+            if t[4] in failed:
+                return True
+            last = t[4]
+        elif t[:2] == ["obs", "answered"] and len(t) == 4 and t[3] != "ok" and last is not None:
+            failed.add(last)
+    return False
+
+
 def nontrivial_hash(header, lines):
-    # an equal request was dispatched at least twice, and at least two different backends were used
+    # an equal request was dispatched at least twice, at least two different backends were used, and a request
+    # whose backend had answered it with an error was dispatched again
     picks = _picks(lines)
     reqs = [p[2] for p in picks]
-    return len(set(reqs)) < len(reqs) and len({p[1] for p in picks}) >= 2
+    return len(set(reqs)) < len(reqs) and len({p[1] for p in picks}) >= 2 and _redispatched_after_failure(lines)
 
 
 def nontrivial_retry(header, lines):
-    # a call that was retried at least once and then returned
+    # a call that was retried at least once and then returned, and a retry after an RpcError::Send answer
     second = any(l.startswith("obs policy ") and int(l.split()[2]) >= 2 for l in lines)
-    return second and any(l.startswith("obs ret ") for l in lines)
+    after_send = any(l.startswith("obs policy ") and l.split()[3] == "send" and l.split()[-1] == "1" for l in lines)
+    return second and after_send and any(l.startswith("obs ret ") for l in lines)
+
+
+def _retry_project(lines):
+    # C20 compares everything but the deadline values (which request, which attempt numbers, which results, which
+    # trace context, when); that every attempt carries the caller's deadline is compared and monitored under C07
+    return [" ".join(t for t in l.split() if not t.startswith("deadline=")) for l in lines]
 
 
 FAMILIES = [
@@ -43,21 +67,29 @@ FAMILIES = [
         nontrivial=nontrivial_rr,
         rule="real RoundRobin (two clones sharing one cursor) over n in 1..5 recording mock backends (n=0 in ~2% "
              "of scripts: panic recorded, outside the property); random create / first-poll / drop-unpolled ops, "
-             "first polls in PRNG order; non-trivial = n>=2, more than n picks, picks not in creation order; "
-             "distinct by op sequence + n"),
+             "first polls in PRNG order, and set-result ops that make a mock backend answer Shutdown / "
+             "DeadlineExceeded / Server / Ok from then on (the caller must get the picked backend's own answer); "
+             "non-trivial = n>=2, more than n picks, picks not in creation order; distinct by op sequence + n"),
     trace.Family(
         "c20hash", ["--scripts=300", "--len=40"], ["--scripts=15000", "--len=60"],
         nontrivial=nontrivial_hash,
         rule="real ConsistentHash::with_hasher (deterministic BuildHasher, random 64-bit seed per script, mirrored "
-             "by verifHash) over n in 1..5 mocks; requests from a small pool plus random u64s; non-trivial = some "
-             "request dispatched twice and two different backends used; distinct by op sequence + n + seed"),
+             "by verifHash) over n in 1..5 mocks; requests from a small pool plus random u64s, mixed with set-result "
+             "ops that make a mock backend answer Shutdown / DeadlineExceeded / Server / Ok from then on (equal "
+             "requests must keep reaching the same backend whatever any backend answered before, and the caller "
+             "must get that backend's own answer); non-trivial = some request dispatched twice, two different "
+             "backends used, and a request re-dispatched after its backend answered it with an error; distinct by "
+             "op sequence + n + seed"),
     trace.Family(
         "c20retry", ["--scripts=300", "--len=40"], ["--scripts=15000", "--len=60"],
-        nontrivial=nontrivial_retry,
-        rule="real Retry over a mock backend answering scripted Ok/Err results (or never, when the script is "
-             "exhausted) with a recording policy: decision table by attempt number, or retry-errors-while-"
-             "attempt<max; non-trivial = a call retried at least once that then returned; distinct by op "
-             "sequence + policy parameters"),
+        project=_retry_project, nontrivial=nontrivial_retry,
+        rule="real Retry, under the paused tokio clock tarpc reads (verif_hooks::now), over a mock backend answering "
+             "scripted results (Ok, Shutdown, DeadlineExceeded, Server, RpcError::Send) after a scripted delay of "
+             "virtual time (or never, when the script is exhausted) and recording the context::Context of every "
+             "call (deadline, trace id, span id, sampling decision); callers' deadlines from 0 ns to 30 days, "
+             "random trace contexts; recording policy: decision table by attempt number, or retry-errors-while-"
+             "attempt<max; non-trivial = a call retried at least once that then returned and a retry after a Send "
+             "error; distinct by op sequence + policy parameters"),
     trace.Family(
         "c20mt", ["--scripts=12", "--len=3"], ["--scripts=300", "--len=4"],
         nontrivial=lambda h, l: _param(h, "n", 1) >= 2 and any("calls=4000" in x or "calls=500" in x for x in l),
@@ -76,7 +108,10 @@ ASSUMPTIONS = [
     "a hasher is a function of the request (BuildHasher/Hash contract); the harness uses one deterministic hasher "
     "family with a random seed per script",
     "fewer than 2^32 attempts per Retry::call (the u32 attempt counter of `for i in 1..` has not overflowed)",
-    "the retry policy is a pure function of (result, attempt); mock backends answer at the first poll or never",
+    "the retry policy is a pure function of (result, attempt); mock backends answer at the first poll, after moving "
+    "the paused clock by the scripted delay (one extra poll), or never",
+    "load-balancer mock backends answer what the last set-result op said (Ok(request) initially); a real channel "
+    "whose dispatch task has ended answers Shutdown in the same way",
 ]
 
 
